@@ -384,7 +384,7 @@ def storage_random_replay(payload):
     return any(not r["ok"] for r in res)
 
 
-def sim_histories(rep, module, cfg, consts, label, header, name, num, depth, workers=8, timeout=1800, fan=0):
+def sim_histories(rep, module, cfg, consts, label, header, name, num, depth, workers=8, timeout=3600, fan=0):
     """TLC -simulate: random walks of the bounded model; each walk prints its history when it reaches
     EmitDepth operations.  fan > 0 (MC_MapWalk / MC_Array_sim): keep EVERY candidate successor TLC generated in the last `fan`
     steps of each walk - the complete one-step closure of the states the walk passes through there (for edge-mode replay).
@@ -636,10 +636,11 @@ def array_stages(rep, tcfg, what, sigprefix):
     hist_stage(rep, sigprefix + "-edges", ["array-run"], "array", "ArrayTrace.tla", tcfg, files, "edge", what)
     rep.stages[sigprefix + "-edges"]["selected_of_distinct_histories"] = [n, total]
     light = quick and sigprefix != "c01"      # C05 shares these stages with C01: fewer walks in its quick tier
-    walks = [(256, "{19, 60, 117, 130}", (10 if light else 20) if quick else 300, 200 if quick else 500),
-             (512, "{30, 120, 245, 300}", (5 if light else 10) if quick else 200, 300 if quick else 700)]
+    # (simulating layer C costs about 5 ms per step and walk at these depths: the thorough numbers are sized for ~10 min of TLC)
+    walks = [(256, "{19, 60, 117, 130}", (10 if light else 20) if quick else 120, 200 if quick else 400),
+             (512, "{30, 120, 245, 300}", (5 if light else 10) if quick else 60, 300 if quick else 600)]
     if not quick:
-        walks += [(1024, "{40, 250, 501, 700}", 100, 900), (257, "{19, 61, 118, 131}", 100, 400)]
+        walks += [(1024, "{40, 250, 501, 700}", 30, 800), (257, "{19, 61, 118, 131}", 60, 300)]
     for (T, sizes, num, depth) in walks:
         nm = "%s-sim%d" % (sigprefix, T)
         wf, wn = sim_histories(rep, "MC_Array.tla", "MC_Array_sim.cfg",
@@ -915,7 +916,7 @@ def persist_stages(rep, prefix, cfgname, what, arrays=True, maps=True, index0=0)
         hist_stage(rep, prefix + "-array-edges", ["array-run"], "array", "ArrayTrace.tla", "ArrayTrace_%s.cfg" % cfgname, files, "edge", what)
         rep.stages[prefix + "-array-edges"]["selected_of_distinct_histories"] = [n, total]
         for (T, sizes, num, depth) in ([(256, "{19, 60, 117, 130}", 16, 160)] if quick else
-                                       [(256, "{19, 60, 117, 130}", 200, 400), (512, "{30, 120, 245, 300}", 100, 500)]):
+                                       [(256, "{19, 60, 117, 130}", 100, 300), (512, "{30, 120, 245, 300}", 50, 400)]):
             nm = "%s-array-walk%d" % (prefix, T)
             wf, wn = sim_histories(rep, "MC_Array.tla", "MC_Array_sim.cfg",
                                    {"T": T, "Sizes": sizes, "WithReads": "FALSE", "AllowPop": "FALSE", "MaxElems": 100000, "Persist": "TRUE",
@@ -1327,7 +1328,7 @@ def array_probe_stages(rep, prefix, tcfg, what, probes, maxel_q=4, maxel_t=6, ed
     rep.stages[prefix + "-array-edges"]["selected_of_distinct_histories"] = [n, total]
     if walks:
         for (T, sz, num, depth) in ([(256, "{19, 60, 117, 130}", 16, 70)] if quick else
-                                    [(256, "{19, 60, 117, 130}", 600, 200), (512, "{30, 120, 245, 300}", 300, 300), (1024, "{40, 250, 501, 700}", 100, 400)]):
+                                    [(256, "{19, 60, 117, 130}", 200, 200), (512, "{30, 120, 245, 300}", 100, 300), (1024, "{40, 250, 501, 700}", 40, 400)]):
             nm = "%s-array-walk%d" % (prefix, T)
             wf, wn = sim_histories(rep, "MC_Array.tla", "MC_Array_sim.cfg",
                                    {"T": T, "Sizes": sz, "WithReads": "FALSE", "AllowPop": "FALSE", "MaxElems": 100000,
